@@ -3,7 +3,7 @@ from ..variants import fire, silent
 QS = "pennylane/core/qscript.py"
 BNP = "pennylane/ops/functions/bind_new_parameters.py"
 fire("C40", "init-stores-callers-trainable-params",
-     (QS, "        self._trainable_params = None if trainable_params is None else list(trainable_params)", "        self._trainable_params = trainable_params"),
+     (QS, "            None if trainable_params is None else sorted(set(trainable_params))", "            trainable_params"),
      "R-C40-alias", "QuantumScript.__init__")
 fire("C40", "init-stores-callers-ops-list",
      (QS, "        self._ops = [] if ops is None else list(ops)", "        self._ops = [] if ops is None else ops"), "R-C40-alias", "QuantumScript.__init__")
@@ -16,9 +16,12 @@ fire("C40", "generic-handler-writes-data-on-input",
 fire("C40", "symbolic-handler-writes-hyperparameters-on-input",
      (BNP, "    new_hyperparameters = copy.deepcopy(op.hyperparameters)\n", "    new_hyperparameters = op.hyperparameters\n    new_hyperparameters[\"rebound\"] = True\n"),
      "R-C40-bind", "bind_new_parameters_symbolic_op")
-silent("C40", "init-tuple-then-list",
-       [(QS, "        self._trainable_params = None if trainable_params is None else list(trainable_params)",
-             "        self._trainable_params = list(trainable_params) if trainable_params is not None else None")])
+silent("C40", "init-sorted-without-set",
+       [(QS, "            None if trainable_params is None else sorted(set(trainable_params))",
+             "            sorted(trainable_params) if trainable_params is not None else None")])
+fire("C40", "init-keeps-callers-order",
+     (QS, "            None if trainable_params is None else sorted(set(trainable_params))", "            None if trainable_params is None else list(trainable_params)"),
+     "R-C40-canon", "QuantumScript.__init__")
 silent("C40", "generic-handler-shallow-copy",
        [(BNP, "        new_op = copy.deepcopy(op)\n        new_op._data = tuple(params)", "        new_op = copy.copy(op)\n        new_op._data = tuple(params)")])
 fire("C40", "setter-keeps-insertion-order",
